@@ -385,8 +385,10 @@ theorem inv2_step {s s' : St} {t t' : Th} (h : Inv2 s) (hs : (s', t') ∈ step t
         have h1 : holds chkRunWait s.tr = true := hR
         unfold holds at h1
         rw [h1]
-        show (true && (obsOf s.tr).live.isEmpty) = true
-        rw [live_nil_of_rw_zero hI.2.2 hC h0]; rfl
+        show (true && chkRunWait (obsOf s.tr) (.runret c)) = true
+        simp only [chkRunWait, live_nil_of_rw_zero hI.2.2 hC h0, Bool.true_and, List.all_eq_true]
+        intro p _ i _
+        rfl
       · simp at hs
     | waiting keys => cases keys <;> simp [step] at hs
     | fin => simp [step] at hs
